@@ -638,13 +638,16 @@ fn gen_world(rng: &mut Rng) -> World {
         let from = if !loud.is_empty() && rng.chance(1, 5) { ent_addr(*rng.pick(&loud)) } else { sender_addr(rng.below(4) as usize) };
         let base = db.accounts.get(&from).map_or(0, |i| i.nonce);
         let nonce = *nonces.entry(from).or_insert(base);
-        nonces.insert(from, nonce + 1);
-        let gas_limit = *rng.pick(&[60_000u64, 150_000, 400_000, 1_000_000, 1_000_000]);
+        let wrong_nonce = rng.chance(1, 40);
+        if !wrong_nonce {
+            nonces.insert(from, nonce + 1);
+        }
+        let gas_limit = if rng.chance(1, 10) { 60_000 } else { *rng.pick(&[100_000u64, 300_000, 1_000_000, 1_000_000, 3_000_000]) };
         let mut tx = TxEnv {
             caller: from,
             gas_limit,
             gas_price: rng.range(1, 3) as u128,
-            nonce: if rng.chance(1, 40) { nonce + 1 } else { nonce },
+            nonce: if wrong_nonce { nonce + 1 + rng.below(2) } else { nonce },
             value: if rng.chance(1, 6) { U256::from(rng.below(1000)) } else { U256::ZERO },
             chain_id: Some(1),
             ..Default::default()
@@ -663,6 +666,7 @@ fn gen_world(rng: &mut Rng) -> World {
                 }
             }
             tx.kind = TxKind::Create;
+            tx.gas_limit = tx.gas_limit.max(300_000);
             tx.data = code.into();
         } else if r < 9 && spec_n >= 12 || r < 8 && rng.chance(1, 10) {
             // EIP-7702 transaction (before Prague: an invalid transaction, skipped on every side)
@@ -687,6 +691,7 @@ fn gen_world(rng: &mut Rng) -> World {
                 auths.push(Either::Right(RecoveredAuthorization::new_unchecked(auth, rec)));
             }
             tx.tx_type = 4;
+            tx.gas_limit = tx.gas_limit.max(1_000_000);
             tx.authorization_list = auths;
             tx.kind = TxKind::Call(ent_addr(rng.below(n_ent as u64) as usize));
         } else {
@@ -964,6 +969,16 @@ fn prog_case(idx: u64, rng: &mut Rng, out: &mut Out, seed: u64) {
     out.add("prog_txs", w.txs.len() as u64);
     out.add("prog_tx_halt_or_revert", g_seq_raw.0.iter().filter(|o| matches!(o, TxExecutionOutcome::Executed(r) if !r.is_success())).count() as u64);
     out.add("prog_tx_skipped", g_seq_raw.0.iter().filter(|o| matches!(o, TxExecutionOutcome::Skipped(_))).count() as u64);
+    for o in &g_seq_raw.0 {
+        let k = match o {
+            TxExecutionOutcome::Executed(revm::context_interface::result::ExecutionResult::Success { .. }) => "prog_out_success".to_owned(),
+            TxExecutionOutcome::Executed(revm::context_interface::result::ExecutionResult::Revert { .. }) => "prog_out_revert".to_owned(),
+            TxExecutionOutcome::Executed(revm::context_interface::result::ExecutionResult::Halt { reason, .. }) => format!("prog_out_halt_{reason:?}"),
+            TxExecutionOutcome::Skipped(e) => format!("prog_out_skip_{}", format!("{e:?}").split(|c: char| !c.is_alphanumeric()).next().unwrap_or("?")),
+        };
+        out.bump(&k);
+        if k.contains("OutOfGas(Basic)") || k.contains("CallGasCost") || k.contains("NonceTooHigh") { out.bump(&format!("{k}_spec{:02}", w.spec_n)); }
+    }
     let _ = &r0.raw;
 }
 
@@ -998,6 +1013,18 @@ fn main() {
     let stats: Vec<String> = out.stats.iter().map(|(k, v)| format!("\"{k}\":{v}")).collect();
     fs::write(format!("{outdir}/guard.stats"), format!("{{{}}}\n", stats.join(","))).unwrap();
     if only.is_some() {
+        let mut rng = Rng::new(seed ^ 0xC12);
+        for i in 0..n_prog {
+            let mut r = rng.fork();
+            if only == Some(i) {
+                let w = gen_world(&mut r);
+                println!("spec={} forbid={}\n{}", w.spec_n, w.forbid, w.descr.join("\n"));
+                let (cfg, block) = cfg_block(w.spec_n);
+                let g = gc::run_grevm(&Arc::new(w.db.clone()), &cfg, &block, &Arc::new(w.txs.clone()), None, DelegatedSafetyConfig { forbid_delegated_create: w.forbid, reserve_delegated_balance: false }, 0).unwrap();
+                for l in gc::canon_outcomes(&g.0) { println!("grevm: {l}"); }
+                for l in gc::canon_bundle(&g.1) { println!("grevm: {l}"); }
+            }
+        }
         print!("{}", out.inp);
         print!("{}", out.imp);
         for d in &out.direct {
